@@ -158,6 +158,18 @@ func c07Recipe(recipe string) []byte {
 		}
 		body = append(body, 0x01, 0x00)
 		return wrapMsg(body)
+	case "shortbottom": // a nested one-element lists around a list that declares b+1 elements; b four-byte elements are
+		// present and the text ends exactly where the last one would start (the count passes any bytes-per-element guard)
+		body := bytes.Repeat([]byte{0x01, 0x01}, a)
+		body = append(body, 0x01, byte(b+1))
+		body = append(body, bytes.Repeat([]byte{0x21, 0x02, 0x07, 0x07}, b)...)
+		return wrapMsg(body)
+	case "shortlevels": // a levels of <L[2] <B 7 7> <L[2] ...>>; the innermost declares two elements and holds only the first
+		var body []byte
+		for i := 0; i < a; i++ {
+			body = append(body, 0x01, 0x02, 0x21, 0x02, 0x07, 0x07)
+		}
+		return wrapMsg(body)
 	case "bigleaf": // a nested one-element lists around one binary/U4 item of b payload bytes
 		body := bytes.Repeat([]byte{0x01, 0x01}, a)
 		body = append(body, 0o54<<2|2, byte(b>>8), byte(b))
@@ -285,6 +297,16 @@ func c07Jobs(c *ctx) (small []iso.Job, large []iso.Job) {
 			r := fmt.Sprintf("leafchain %d %d", depth, code)
 			small = append(small, iso.Job{Input: c07Recipe(r), Family: "nest-with-leaf-per-level", Meta: r})
 		}
+	}
+	// a list at the bottom of a deep nest whose last declared element is missing, the text ending exactly on an element
+	// boundary (refused or not, the work stays linear)
+	for _, depth := range []int{250, 1000, 4000, c.pick(10000, 20000)} {
+		for _, present := range []int{1, 2, 60} {
+			r := fmt.Sprintf("shortbottom %d %d", depth, present)
+			small = append(small, iso.Job{Input: c07Recipe(r), Family: "nest-whose-bottom-list-lacks-its-last-element", Meta: r})
+		}
+		r := fmt.Sprintf("shortlevels %d 0", depth)
+		small = append(small, iso.Job{Input: c07Recipe(r), Family: "nest-whose-bottom-list-lacks-its-last-element", Meta: r})
 	}
 	// one large array item at the bottom of a deep nest
 	for _, dp := range [][2]int{{500, 1000}, {1000, 2000}, {c.pick(2000, 4000), 4000}, {3000, 60000}} {
@@ -547,7 +569,7 @@ func runC07(c *ctx) {
 			c.Sample(map[string]interface{}{"family": j.Family, "len": len(j.Input), "input": hex.EncodeToString(clipB(j.Input))})
 		}
 	}
-	c.Required = []string{"hook-H3-reached", "family/declared-vs-present", "family/single-point-fault", "family/long-item", "family/long-item-payload-patterns", "family/many-small-items", "family/generated-tree", "family/closed-chain", "family/nest-with-leaf-per-level", "family/nest-around-a-large-item", "family/greedy-nested-lists", "family/random", "family/repeat-in-one-process", "family/short-read-of-a-whole-frame", "family/concurrent-batch", "family/distinct-small-messages-in-one-process", "family/many-distinct-texts", "family/legit-prefix-then-hostile-tail", "accepted", "rejected"}
+	c.Required = []string{"hook-H3-reached", "family/nest-whose-bottom-list-lacks-its-last-element", "family/declared-vs-present", "family/single-point-fault", "family/long-item", "family/long-item-payload-patterns", "family/many-small-items", "family/generated-tree", "family/closed-chain", "family/nest-with-leaf-per-level", "family/nest-around-a-large-item", "family/greedy-nested-lists", "family/random", "family/repeat-in-one-process", "family/short-read-of-a-whole-frame", "family/concurrent-batch", "family/distinct-small-messages-in-one-process", "family/many-distinct-texts", "family/legit-prefix-then-hostile-tail", "accepted", "rejected"}
 }
 
 // c07HistoryInputs: messages that are refused after part of their content was decoded (in a list, in a nested list,
